@@ -31,6 +31,64 @@ def text_trees(rng, n, all_fns):
         yield gen.rand_tag(rng, rng.randint(1, 6), leaves=("text", "text", "text", "html", "robj", "meta"), all_names=all_fns)
 
 
+def stale_mode_oracle(ck) -> int:
+    """whether text is escaped follows from what the element IS when it is rendered, not from what it was when it was built:
+    a tag renamed through the public `name` attribute, a copy that is renamed, a child list moved to another tag — each must
+    render exactly like a tag built afresh with that name and those children (the fresh build is what the model stream covers)"""
+    import copy as _copy
+    from htmltools import HTML, Tag, TagList
+    n = 0
+    names = ["script", "style", "p", "div", "span", "pre", "Script"]
+    kidsets = [["a<b", "c&d"], ["</p><img src=x onerror=alert(1)>", Tag("b", "x<y")], ["1 < 2", HTML("<i>ok</i>"), "&amp;"], ["only<"], []]
+
+    def fresh(name, kids, ws):
+        return Tag(name, *[_copy.copy(k) if isinstance(k, Tag) else k for k in kids], _add_ws=ws)
+
+    for old in names:
+        for new in names:
+            if old == new:
+                continue
+            for ki, kids in enumerate(kidsets):
+                for how in ("rename", "rename after render", "copy then rename", "move child list", "append after rename"):
+                    n += 1
+                    ck.holds_checked += 1
+                    try:
+                        t = fresh(old, kids, True)
+                        extra = []
+                        if how == "rename":
+                            t.name = new
+                            got_t = t
+                        elif how == "rename after render":
+                            t.get_html_string()
+                            str(t)
+                            t.name = new
+                            got_t = t
+                        elif how == "copy then rename":
+                            got_t = _copy.copy(t)
+                            got_t.name = new
+                        elif how == "move child list":
+                            got_t = Tag(new, _add_ws=True)
+                            got_t.children = t.children
+                        else:
+                            t.name = new
+                            t.append("late<&>")
+                            extra = ["late<&>"]
+                            got_t = t
+                        got = (got_t.get_html_string(), str(got_t), got_t.render()["html"])
+                        ref = fresh(new, kids + extra, True)
+                        want = (ref.get_html_string(), str(ref), ref.render()["html"])
+                    except Exception as e:  # noqa: BLE001
+                        ck.py_violation(f"stale_mode {old}->{new} kids#{ki} {how}", f"raised {type(e).__name__}: {e}", f"{how} raised", py=f"{old} -> {new}, {how}")
+                        continue
+                    if got != want:
+                        ck.py_violation(f"stale_mode {old}->{new} kids#{ki} {how}", got[0][:400],
+                                        f"a <{old}> tag turned into <{new}> ({how}) renders {got[0]!r}; a <{new}> tag built afresh with the same children renders {want[0]!r}",
+                                        py=f"t = Tag({old!r}, *{kids!r}); t.name = {new!r}   # {how}\nt.get_html_string()")
+    ck.exhaustive_scopes.append({"scope": "text mode follows the element as it is: 7 names x 6 other names x 5 child lists x {rename, rename after render, copy then rename, "
+                                          "move the child list, append after rename} against a tag built afresh", "n": n, "exhaustive": True})
+    return n
+
+
 def run(tier: str) -> int:
     import htmltools
     from htmltools import _util
@@ -65,6 +123,7 @@ def run(tier: str) -> int:
         nt = any(x in s.split(".") for x in ("26", "3c", "3e"))
         ck.add(l, im, nontrivial=nt, tag="escape")
     ck.add_src(['html_escape', 'normalize_text'])
+    ck.extra_cov["stale_mode_cases"] = stale_mode_oracle(ck)
     ck.correspond(holds=True)
     # the exported function and the compatibility alias are the same mapping
     ck.holds_checked += 1
